@@ -131,6 +131,9 @@ func handleShareMemoryByFilePath(s *Session, hdr header) error {
 		return err
 	}
 	bufferPath, queuePath := s.extractShmMetadata(body)
+	if bufferPath == "" || queuePath == "" {
+		return errors.New("handleShareMemoryByFilePath failed, invalid share memory metadata")
+	}
 	qm, err := mappingQueueManager(queuePath)
 	if err != nil {
 		return fmt.Errorf("handleShareMemoryByFilePath mappingQueueManager failed,queuePathLen:%d path:%s err=%s",
@@ -197,6 +200,9 @@ func handleShareMemoryByMemFd(s *Session, h header) error {
 		return errors.New("read shm metadata failed,reason:" + err.Error())
 	}
 	bufferPath, queuePath := s.extractShmMetadata(body)
+	if bufferPath == "" || queuePath == "" {
+		return errors.New("handleShareMemoryByMemFd failed, invalid share memory metadata")
+	}
 
 	//2.send AckReadyRecvFD
 	ack := header(make([]byte, headerSize))
